@@ -39,16 +39,31 @@ def build(repo):
     return _built[repo]
 
 
-def run_oracle(binary, pid, seed, prefix=None, timeout=300):
-    cmd = (prefix or []) + [binary, pid, str(seed)]
+ORACLE_TIMEOUT = 120          # seconds; every oracle run on the unchanged tree takes milliseconds (C16: a few seconds)
+ORACLE_MEMORY = 8 << 30       # bytes of address space; the oracles need a few megabytes
+
+
+def _limit_memory():
     try:
-        p = subprocess.run(cmd, stdout=subprocess.PIPE, stderr=subprocess.DEVNULL, text=True, timeout=timeout)
+        import resource
+        resource.setrlimit(resource.RLIMIT_AS, (ORACLE_MEMORY, ORACLE_MEMORY))
+    except Exception:
+        pass
+
+
+def run_oracle(binary, pid, seed, prefix=None, timeout=ORACLE_TIMEOUT):
+    cmd = (prefix or []) + [binary, pid, str(seed)]
+    where = 'oracle %s seed %s%s' % (pid, seed, (' under ' + ' '.join(prefix)) if prefix else '')
+    try:
+        p = subprocess.run(cmd, stdout=subprocess.PIPE, stderr=subprocess.DEVNULL, text=True, timeout=timeout, preexec_fn=_limit_memory)
     except subprocess.TimeoutExpired:
-        # the oracles take milliseconds (C16: seconds) on the unchanged tree: a run that does not finish means the library no
-        # longer terminates (or became absurdly slow) on an input the property covers
+        # a run that does not finish means the library no longer terminates (or became absurdly slow) on an input the property covers
         return [{'property': pid, 'oracle': 'the bounded oracle did not finish within %d s (every run on the unchanged tree takes well under 10 s)' % timeout,
-                 'input': 'oracle %s seed %s%s' % (pid, seed, (' under ' + ' '.join(prefix)) if prefix else ''),
-                 'observed': 'no result after %d s' % timeout, 'expected': 'termination', 'bounded': True}]
+                 'input': where, 'observed': 'no result after %d s' % timeout, 'expected': 'termination', 'bounded': True, 'fatal': True}]
+    if p.returncode not in (0, 1) or '"summary":true' not in p.stdout:
+        # killed by a signal, aborted (allocation failure under the %d GiB address-space limit, stack overflow) or died without its summary line
+        return [{'property': pid, 'oracle': 'the bounded oracle was killed or aborted (stack overflow, allocation beyond %d GiB, abort): the library does not survive an input the property covers' % (ORACLE_MEMORY >> 30),
+                 'input': where, 'observed': 'exit status %s, no summary line' % p.returncode, 'expected': 'a normal run', 'bounded': True, 'fatal': True}]
     res = []
     for line in p.stdout.split('\n'):
         line = line.strip()
@@ -77,9 +92,13 @@ def search_all(pid, repo, seeds):
         ncpu = os.cpu_count() or 1
         prefixes = [None] + [['taskset', '-c', '0-%d' % (k - 1)] for k in (1, 2, 3, 5, 6, 7, 12) if k <= ncpu]
     res, seen = [], set()
+    fatal = False
     for sd in seeds:
         for pre in prefixes:
+            if fatal:
+                break      # a run that hung or died: the remaining runs would only repeat it (and cost their full time limit)
             for f in run_oracle(binary, pid, sd, pre):
+                fatal = fatal or bool(f.get('fatal'))
                 key = (f.get('oracle'), f.get('input'))
                 if key in seen:
                     continue
